@@ -19,15 +19,6 @@ def parseDec (cs : List Char) : Option (Nat × Nat) :=
       else none
   if cs = [] then none else go cs 0 none
 
-def starts (binary : Bool) : List Nat :=
-  if binary then [1, 1024, 1024^2, 1024^3, 1024^4, 1024^5] else [1, 10^3, 10^6, 10^9, 10^12, 10^15]
-
-/-- index of the scale: first `i` with value < starts[i+1], else 5 (the code's if-chain) -/
-def scaleIdx (num sc : Nat) (binary : Bool) : Nat :=
-  let st := starts binary
-  let lt (i : Nat) : Bool := num < st.getD i 0 * 10 ^ sc
-  if lt 1 then 0 else if lt 2 then 1 else if lt 3 then 2 else if lt 4 then 3 else if lt 5 then 4 else 5
-
 def bytesSuffix (binary : Bool) (i : Nat) : String :=
   (if binary then ["B", "KiB", "MiB", "GiB", "TiB", "PiB"] else ["B", "KB", "MB", "GB", "TB", "PB"]).getD i "?"
 
